@@ -435,6 +435,25 @@ def famOp (objVariant opVariant : Nat) (a : Nat) (s t : L) : Res LF :=
 
 def famFunctor (ov pv : Nat) : LFunctor Nat Nat Nat Nat := ⟨famObj ov, famOp ov pv⟩
 
+/-- C13, witness clause (ii): the witness `w` has one segment per input node `i`, of length
+    |F(label i)| (`fw[i]`), whose entries are nodes of the returned diagram `b` carrying, in order, the
+    labels `fw[i]` -/
+def witnessShapeOk (fw : List L) (b : LF) (w : IC FinFun) : Bool :=
+  let segs := w.segs
+  segs.length == fw.length && w.values.target == b.hypergraph.nodes.length &&
+  (segs.zip fw).all (fun p => p.1.length == p.2.length &&
+    (p.1.zip p.2).all (fun vl => b.hypergraph.nodes[vl.1]? == some vl.2))
+
+/-- C13, witness clause (iii): pushing the interfaces of the input `f` through the witness (each
+    interface node replaced by its segment) and then through the quotient map of `b` gives the
+    interfaces of the quotiented `b` -/
+def witnessPushOk (B : Backend) (f b : LF) (w : IC FinFun) : Bool :=
+  match LOHG.quotient B b with
+  | .ok (true, q, bq) =>
+    let through := fun (ids : L) => (ids.flatMap (fun i => w.segs.getD i [])).map (fun v => q.table.getD v 0)
+    through f.sources == bq.sources && through f.targets == bq.targets
+  | _ => false
+
 def functorG (B : Backend) (op : String) (args : List Sx) (impl : Sx) : Option Outcome :=
   match op, args with
   | "functor.identity_map_arrow", [f] => do
@@ -478,15 +497,8 @@ def functorG (B : Backend) (op : String) (args : List Sx) (impl : Sx) : Option O
         --      pushed through the quotient map.
         let dn := laxDenoteRel B (.ok a) (okSx (enc b))
         let fw : List L := f.hypergraph.nodes.map (famObj ov)
-        let segs := wb.segs
-        let shapeOk := segs.length == fw.length && wb.values.target == b.hypergraph.nodes.length &&
-          (segs.zip fw).all (fun p => p.1.length == p.2.length &&
-            (p.1.zip p.2).all (fun vl => b.hypergraph.nodes[vl.1]? == some vl.2))
-        let pushOk : Bool := match LOHG.quotient B b with
-          | .ok (true, q, bq) =>
-            let through := fun (ids : L) => (ids.flatMap (fun i => segs.getD i [])).map (fun v => q.table.getD v 0)
-            through f.sources == bq.sources && through f.targets == bq.targets
-          | _ => false
+        let shapeOk := witnessShapeOk fw b wb
+        let pushOk := witnessPushOk B f b wb
         pure { o with agree := dn.agree && shapeOk && pushOk, decisive := dn.decisive,
                       rel := "witness-criteria(C13 on the implementation's answer)" }
     | _, _ => pure o
